@@ -5,8 +5,8 @@ from checks.fs_spec import C19
 from checks.html_spec import C03
 from checks.parse_spec import C01, C02, C04, C05
 from checks.rule_spec import C06
-from checks.scan_spec import C07, C09, C10, C11, C12, C13, C14, C15, C16, C18
+from checks.scan_spec import C07, C08, C09, C10, C11, C12, C13, C14, C15, C16, C18
 
 SPECS = {}
-for _s in (C01(), C02(), C03(), C04(), C05(), C06(), C07(), C09(), C10(), C11(), C12(), C13(), C14(), C15(), C16(), C17(), C18(), C19(), C20()):
+for _s in (C01(), C02(), C03(), C04(), C05(), C06(), C07(), C08(), C09(), C10(), C11(), C12(), C13(), C14(), C15(), C16(), C17(), C18(), C19(), C20()):
     SPECS[_s.prop] = _s
